@@ -166,7 +166,25 @@ def checkKind (j : Json) : Except String Verdict := do
     else none
   return { nontrivial := true, mismatch := mm, specfail := sf }
 
+/-- two waiting lookups, one response that carries one resource well-formed and the other - under its own name - not
+convertible: the response is rejected as a whole (Seq model: a bad slot applies nothing), both lookups end with an error -/
+def checkPlaceholder (j : Json) : Except String Verdict := do
+  let obs ← j.getObjVal? "obs"
+  let good := jStrD obs "good" "?"
+  let bad := jStrD obs "bad" "?"
+  let rt := jStrD j "rt" "?"
+  let mm := if good = "err:timeout" && bad = "err:timeout" then none
+            else some s!"rejected {rt} response: model: both lookups time out; impl: well-formed name -> {good}, unconvertible name -> {bad}"
+  let sf :=
+    if bad = "typednil" || bad = "nilnil" || bad.startsWith "val:" then
+      some s!"C05.no_placeholder: the {rt} resource the control plane did not usably supply (it could not be converted; the response was rejected) was handed to the waiting lookup as '{bad}' without an error"
+    else if !(bad.startsWith "err:") then some s!"C05.value_xor_error: lookup of the unconvertible {rt} resource returned '{bad}'"
+    else if !(good.startsWith "err:") && !(good.startsWith "val:") then some s!"C05.value_xor_error: lookup returned '{good}'"
+    else none
+  return { nontrivial := true, mismatch := mm, specfail := sf }
+
 def check (pid : String) (j : Json) : Except String Verdict := do
+  if jStrD j "op" "" = "placeholder" then return ← checkPlaceholder j
   if jStrD j "op" "" = "deadline" then return ← checkDeadline j
   if jStrD j "op" "" = "kind" then return ← checkKind j
   if jStrD j "op" "" = "handlers-order" then return ← checkHandlersOrder pid j
